@@ -366,7 +366,7 @@ func countRecords(k keeper.Keeper, ctx sdk.Context, id []byte, bc uint64) (nreq,
 
 // SlashRef: the reference effect of one slash on a binding.
 func SlashRef(k keeper.Keeper, ctx sdk.Context, b BindingSpec, now time.Time) (newDep, amount sdk.Int, avail bool, disabled time.Time) {
-	amount = sdk.NewDecFromInt(b.Deposit).Mul(k.SlashFraction(ctx)).TruncateInt()
+	amount = sdk.NewDecFromInt(b.Deposit).Mul(vf.Params(ctx).SlashFraction).TruncateInt()
 	newDep = b.Deposit.Sub(amount)
 	avail, disabled = b.Available, b.DisabledTime
 	if b.Available && newDep.LT(MinDepositRef(k, ctx, b.Pricing.Price.AmountOf(Denom))) {
